@@ -434,6 +434,8 @@ impl Compressor {
                         encoders.push(zstd::stream::write::Encoder::new(bw, 3)?);
                     }
                     loop {
+                        #[cfg(pnordahl_monorail_verif)]
+                        crate::verif::point(&format!("compressor.loop:{}", x));
                         if shutdown.load(sync::atomic::Ordering::Relaxed) {
                             break;
                         };
